@@ -5,7 +5,7 @@ reg(id="C15",
     props_file="Props/C15.v",
     mismatch_is_failure=True,
     level="proof",
-    rule="calls of nasType.QoSRules / QoSFlowDescs Marshal- and UnmarshalBinary. Streams: corpus (witnesses of F10, F11, the delete-rule finding, EOF quirks); directed (every component type and parameter kind with boundary values, operation codes 0-8/255 x 0/1/15/16/17 filters x DQR x segregation, 0/1/2/62-65/255-257 parameters, filter contents of 255/256/261 octets, 3858-octet rule, ill-formed values: flow label 2^20, 16-octet IPv4 forms, short/long MAC); all 256 component / parameter identifiers (unknown => error required); all 256 values of each header octet; every length field (rule, filter, parameter) set to 0, 1, actual-1, actual+1, 255, 256, 65535; truncation at every octet of valid encodings; structured random values; mutated valid encodings and random octets (one SplitMix64 stream). Go nil and empty slices are identified (values are compared through their Coq rendering). Non-trivial = well-formed non-empty value (Marshal) or successful parse of >= 1 element (Unmarshal); distinct by value / octets.",
+    rule="calls of nasType.QoSRules / QoSFlowDescs Marshal- and UnmarshalBinary. Streams: corpus (witnesses of F10, F11, the delete-rule finding, EOF quirks); directed (every component type and parameter kind with boundary values, operation codes 0-8/255 x 0/1/15/16/17 filters x DQR x segregation, 0/1/2/62-65/255-257 parameters, filter contents of 255/256/261 octets, 3858-octet rule, ill-formed values: flow label 2^20, 16-octet IPv4 forms, short/long MAC); all 256 component / parameter identifiers in the first and second element (unknown => error required); every implemented component type with 0..Length+1 value octets and every parameter kind with 0..4 content octets; all 256 values of each header octet; every length field (rule, filter, parameter) set to 0, 1, actual-1, actual+1, 255, 256, 65535; truncation at every octet of valid encodings; structured random values; mutated valid encodings and random octets (one SplitMix64 stream). Go nil and empty slices are identified (values are compared through their Coq rendering). Non-trivial = well-formed non-empty value (Marshal) or successful parse of >= 1 element (Unmarshal); distinct by value / octets.",
     trusted_base=TB_COMMON + [
         "hand-written model coq/C15/Model.v of nasType/qos_rule.go and qos_flow_desc.go (exercised by the correspondence run on every call the harness makes)",
         "modelled stdlib: bytes.Buffer (Next, Read via binary.Read, Write), encoding/binary Read/Write of 1/2-octet values and byte slices, binary.BigEndian.{Uint16,Uint32,PutUint16,PutUint32}; io.EOF vs io.ErrUnexpectedEOF as returned by io.ReadFull",
